@@ -201,7 +201,7 @@ func (s *State) checkFrameWrite(base, ref, where string) {
 		for _, r := range fr.Refs[base] {
 			alts = append(alts, eq(ref, r))
 		}
-		s.oblige("frame", "write:"+base+"@"+scope, s.defaultProps(), or(alts...), where, "modifies "+fr.Desc)
+		s.oblige("frame", "write:"+base+"@"+scope, s.structProps(), or(alts...), where, "modifies "+fr.Desc)
 	}
 	check(s.fnFrame, "func")
 	for _, lf := range s.loops {
@@ -218,6 +218,15 @@ func (s *State) checkFrameWrite(base, ref, where string) {
 func (s *State) defaultProps() []string {
 	if s.spec != nil {
 		return s.spec.Props
+	}
+	return nil
+}
+
+// structProps: properties charged with a structural failure (unsupported construct, un-framed havoc, broken requires):
+// such a failure cuts the path or empties what follows, so it counts for every property the function's contract serves.
+func (s *State) structProps() []string {
+	if s.spec != nil {
+		return unionProps(s.spec.Props, allProps(s.spec))
 	}
 	return nil
 }
